@@ -131,9 +131,9 @@ def batch_specs(starts, base_rules, ins, kmode, family, batch=40):
 C01_BOUNDS = {
     # top: list of (n, modifiers, trivia configs); ctx: (hole size, trivia configs); L: max number of inputs
     "quick": {"top": [(2, MODS, ("none", "ws", "ws_loud", "cm2", "both", "ws_choice")), (3, ("", "@"), ("none", "ws"))],
-              "ctx": (2, ("none", "ws")), "max_inputs": 90},
+              "ctx": [(2, ("none", "ws"))], "max_inputs": 90},
     "thorough": {"top": [(3, MODS, ("none", "ws", "ws_loud", "cm2", "both", "ws_choice", "cm1", "cm_pred")), (4, ("",), ("none", "ws"))],
-                 "ctx": (3, ("none", "ws", "cm2", "both")), "max_inputs": 400},
+                 "ctx": [(3, ("none", "ws")), (2, ("cm2", "both", "ws_loud", "ws_choice"))], "max_inputs": 160},
 }
 
 
@@ -170,20 +170,20 @@ def c01_specs(tier: str, kmode: str = "zero", terminals=T_FULL, soi_free: bool =
                 ins = inputs(sigma, 3)
             starts = [((), (m, body)) for body in bodies(n) for m in mods]
             out.extend(batch_specs(starts, TRIVIA[tv] + HELPERS, ins, kmode, f"top(n<={n},{tv})"))
-    hole_n, trivs = b["ctx"]
     ctxs = contexts()
-    for tv in trivs:
-        sigma = SIGMA_CORE + TRIVIA_SIGMA[tv] + extra_sigma
-        ins = inputs(sigma, length_for(sigma, mi))
-        for cname, f in ctxs.items():
-            starts = []
-            for i, h in enumerate(bodies(hole_n)):
-                extra, start = f(h, i)
-                rules = TRIVIA[tv] + HELPERS + tuple(extra) + (("x", start[0], start[1]),)
-                if not gast.well_formed(rules):
-                    continue  # e.g. a repetition context around a nullable hole
-                starts.append((extra, start))
-            out.extend(batch_specs(starts, TRIVIA[tv] + HELPERS, ins, kmode, f"ctx({cname},hole<={hole_n},{tv})"))
+    for hole_n, trivs in b["ctx"]:
+        for tv in trivs:
+            sigma = SIGMA_CORE + TRIVIA_SIGMA[tv] + extra_sigma
+            ins = inputs(sigma, length_for(sigma, mi))
+            for cname, f in ctxs.items():
+                starts = []
+                for i, h in enumerate(bodies(hole_n)):
+                    extra, start = f(h, i)
+                    rules = TRIVIA[tv] + HELPERS + tuple(extra) + (("x", start[0], start[1]),)
+                    if not gast.well_formed(rules):
+                        continue  # e.g. a repetition context around a nullable hole
+                    starts.append((extra, start))
+                out.extend(batch_specs(starts, TRIVIA[tv] + HELPERS, ins, kmode, f"ctx({cname},hole<={hole_n},{tv})"))
     return out
 
 
